@@ -304,7 +304,11 @@ def run_one(chk, inp, pvspec, ctx, validate_only=False, extra=None, restaged=Fal
     # "half-updated": as restaged, but the FASTA is clearly newer than the old cache, and a re-indexing run died after it
     # had written the new .fai and before the .agp (fresh .fai, old .agp)
     half = mode == "half-updated"
-    restaged = mode in ("restaged", "restaged-same", "half-updated")
+    # "fai-lost": as restaged, but the new FASTA carries an old modification time (cp -p / rsync -t of an older file), the
+    # .fai has gone and the earlier version's .agp is still there, newer than the FASTA; the command is run once (it has
+    # to index again; the .agp beside the FASTA must then describe the FASTA) and the run after that is the one checked
+    fai_lost = mode == "fai-lost"
+    restaged = mode in ("restaged", "restaged-same", "half-updated", "fai-lost")
     case = ["cli", pv.jsonable(pvspec), pv.jsonable(inp)] + ([mode] if mode else [])
     ctx.cur = case
     ctx.evaluations += 1
@@ -343,9 +347,23 @@ def run_one(chk, inp, pvspec, ctx, validate_only=False, extra=None, restaged=Fal
                 fi_.index, _asm = index_fasta_file(fa)
                 fi_.write_index()
                 os.utime(d / "in" / "asm.fa.fai", ns=(mt + 5_000_000_000, mt + 5_000_000_000))
-            for p in (fa, d / "in" / "asm.fa.fai", d / "in" / "asm.fa.agp") if not half else ():
+            for p in (fa, d / "in" / "asm.fa.fai", d / "in" / "asm.fa.agp") if not (half or fai_lost) else ():
                 if p.exists():
                     os.utime(p, ns=(mt, mt))
+            if fai_lost:
+                os.utime(fa, (1_000_000_000, 1_000_000_000))
+                if (d / "in" / "asm.fa.fai").exists():
+                    os.unlink(d / "in" / "asm.fa.fai")
+                (d / "out_mid").mkdir()
+                cli.invoke_p2a(["-a", fa, "-p", d / "in" / "map.agp", "-o", d / "out_mid" / "x.fa"])
+                try:
+                    got_len = {n: sum(r[1] if r[0] == "G" else r[3] - r[2] + 1 for r in rows) for n, rows in parse_agp_rows((d / "in" / "asm.fa.agp").read_text())}
+                except (OSError, IndexError, ValueError, KeyError) as e:
+                    got_len = repr(e)
+                want_len = {n: len(sq) for n, sq in seqs.items()}
+                if got_len != want_len:
+                    ctx.violation("index-agp-beside-fasta-stale-after-reindexing", case, f".agp object lengths {got_len!r}, FASTA records {want_len!r}")
+                    return None
             ctx.count("cli_runs_restaged")
         elif mode == "warm-crlf":
             seqs = cli.write_fasta(fa, inp, width=7, eol=b"\r\n")
@@ -390,6 +408,8 @@ def run_shard(chk, shard, ctx, validate_only=False, extra=None):
                 run_one(chk, inp, pvspec, ctx, validate_only=validate_only, extra=extra, restaged="half-updated")
             if (i // chunks) % 6 == 5:
                 run_one(chk, inp, pvspec, ctx, validate_only=validate_only, extra=extra, restaged="restaged-same")
+            if (i // chunks) % 6 == 2:
+                run_one(chk, inp, pvspec, ctx, validate_only=validate_only, extra=extra, restaged="fai-lost")
     ctx.count("cli_runs", sum(1 for i in range(len(cs)) if i % chunks == chunk))
     if chunk == 0 and cs:
         ctx.sample({"cli": "pretext-to-asm -a asm.fa -p map.agp -o x.fa", "pretext": pv.jsonable(cs[0][1]), "input": pv.jsonable(cs[0][0])})
